@@ -170,6 +170,7 @@ func spec_sameCalls(a, b []spec_Call) bool {
 
 //@ func gengoCtx.doGenerate
 //@   props C06 C02 C04
+//@   ordered
 //@   onpanic eq(spec_fx(), old(spec_fx()))
 //@   requires c != nil && c.l != nil && g != nil && c.universe != nil && c.args != nil
 //@   requires c.pkg != nil ==> forall n string :: has(c.pkg.Types(), n) ==> c.pkg.Types()[n] != nil && spec_docOK(c, c.pkg.Types()[n])
@@ -250,7 +251,8 @@ func spec_callFailed(k spec_Call) bool {
 func spec_lastCall() spec_Call { return spec_calls()[len(spec_calls())-1] }
 
 //@ func gengoCtx.doGenerateNamedType
-//@   props C02 C06 C07
+//@   props C02 C06 C07 C04
+//@   ordered
 //@   onpanic eq(spec_fx(), old(spec_fx()))
 //@   requires c != nil && c.l != nil && g != nil && x != nil
 //@   assigns *
@@ -266,7 +268,8 @@ func spec_lastCall() spec_Call { return spec_calls()[len(spec_calls())-1] }
 //@   note the ignore mark is sticky: once a type signalled ErrIgnore the generator's previous file is kept, whatever later types return
 
 //@ func gengoCtx.doGenerateAliasType
-//@   props C02 C06
+//@   props C02 C06 C04
+//@   ordered
 //@   onpanic eq(spec_fx(), old(spec_fx()))
 //@   requires c != nil && c.l != nil && g != nil && x != nil
 //@   assigns *
@@ -349,6 +352,7 @@ func spec_importBlock(m map[string]string) string {
 
 //@ func writeImports
 //@   props C01 C03 C04
+//@   ordered
 //@   requires w != nil
 //@   assigns content(w)
 //@   ensures spec_written(w) == old(spec_written(w)) + spec_importBlock(pathToName)
@@ -373,7 +377,8 @@ func spec_outPath(dir string, base string, gen string) string {
 const spec_parseMode = parser.ParseComments | parser.SkipObjectResolution | parser.AllErrors
 
 //@ func genfile.WriteToFile
-//@   props C01 C02 C07
+//@   props C01 C02 C07 C04
+//@   ordered
 //@   requires ff != nil && ff.body != nil && ff.imports != nil && c != nil && args != nil
 //@   requires c.Package("") != nil && c.Package("").Pkg() != nil && c.Package("").Module() != nil
 //@   assigns content(ff.body)
@@ -414,8 +419,19 @@ func spec_itoa(n int) string { return strconv.Itoa(n) }
 //@   requires c != nil
 //@   ensures result == (c.body == nil || len(spec_written(c.body)) == 0)
 
+//@ func NewContext
+//@   props C08 C04 C05 C02
+//@   requires args != nil
+//@   noglobalstate
+//@   ensures result1 == nil ==> result0 != nil && spec_isCtx(result0) && fresh(spec_ctxOf(result0)) && spec_ctxOf(result0).args == args && spec_ctxOf(result0).universe != nil && fresh(spec_ctxOf(result0).universe)
+//@   ensures result1 != nil ==> result0 == nil
+//@   note every context loads ITS OWN universe (a fresh one, with directory hashes taken at the time of THIS call) and consults no package-level state: a second run in the same process sees the directories as they are then (C08: an edit between two runs is never hidden by a universe kept from the first; C05: nothing is shared between contexts)
+
+func spec_isCtx(e Executor) bool     { _, ok := e.(*gengoCtx); return ok }
+func spec_ctxOf(e Executor) *gengoCtx { c, _ := e.(*gengoCtx); return c }
+
 //@ func gengoCtx.Defer
-//@   props C06
+//@   props C06 C02 C05
 //@   requires c != nil
 //@   assigns c.defers
 //@   ensures eq(c.defers, append(old(c.defers), fn))
@@ -459,6 +475,7 @@ func spec_removedIn(fx []spec_Effect, x string) bool {
 
 //@ func gengoCtx.pkgExecute
 //@   props C02 C07 C06 C05 C04
+//@   ordered
 //@   requires c != nil && c.args != nil && c.universe != nil
 //@   requires forall i int :: 0 <= i && i < len(generators) ==> generators[i] != nil
 //@   requires c.universe.Package(pkg) != nil ==> spec_pkgOK(c.universe, c.universe.Package(pkg))
@@ -581,7 +598,8 @@ func spec_direct(u *gengotypes.Universe, q string) bool { return gengotypes.Spec
 //@   requires sw != nil
 
 //@ func snippetWriter.Render
-//@   props C01 C09
+//@   props C01 C09 C04
+//@   ordered
 //@   requires sw != nil
 //@   ensures snippet == nil || snippet.IsNil() ==> spec_written(sw.Writer) == old(spec_written(sw.Writer))
 //@   ensures snippet != nil && !snippet.IsNil() ==> spec_written(sw.Writer) == old(spec_written(sw.Writer)) + spec_concatN(ys1, len(ys1))
